@@ -19,6 +19,8 @@ pub struct Session<'t, F: Kind> {
     pub dead: bool,
     /// slots of handles held outside the slot table (e.g. inside a `Subst`)
     pub ext: std::collections::BTreeMap<Slot, (i64, u32)>,
+    /// number of add_vars calls so far (selects the entry point)
+    pub add_calls: u32,
 }
 
 pub type Slot = usize;
@@ -60,6 +62,10 @@ impl<'t, F: Kind + BooleanFunction> Session<'t, F> {
             n: 0,
             dead: false,
             ext: Default::default(),
+            add_calls: {
+                static SESSIONS: std::sync::atomic::AtomicU32 = std::sync::atomic::AtomicU32::new(0);
+                SESSIONS.fetch_add(1, std::sync::atomic::Ordering::Relaxed) % 3
+            },
         }
     }
 
@@ -69,9 +75,32 @@ impl<'t, F: Kind + BooleanFunction> Session<'t, F> {
 
     pub fn add_vars(&mut self, k: u32) {
         self.out.emit(json!({"ev":"begin","what":"add_vars","k":k}));
-        let r = self
-            .mref
-            .with_manager_exclusive(|m| catch(|| m.add_vars(k)));
+        // all three entry points in turn: add_vars, add_named_vars,
+        // add_named_vars_from_map (fresh unique names)
+        self.add_calls += 1;
+        let via = self.add_calls % 3;
+        debug_assert!(via < 3);
+        let r = self.mref.with_manager_exclusive(|m| {
+            catch(|| {
+                let n0 = m.num_vars();
+                let names = (0..k).map(|i| format!("x{}", n0 + i));
+                match via {
+                    1 => m.add_vars(k),
+                    2 => m.add_named_vars(names).expect("harness: fresh names"),
+                    _ => {
+                        let mut map = oxidd_core::util::VarNameMap::new();
+                        // the names of the existing variables come first
+                        let old: Vec<String> = (0..n0).map(|v| m.var_name(v).to_string()).collect();
+                        if old.iter().all(|s| s.is_empty()) && n0 == 0 {
+                            map.add_named(names).expect("harness: fresh names");
+                            m.add_named_vars_from_map(map).expect("harness: fresh names")
+                        } else {
+                            m.add_named_vars(names).expect("harness: fresh names")
+                        }
+                    }
+                }
+            })
+        });
         let (l2v, v2l) = self.order();
         let (nv, nl) = self
             .mref
@@ -80,7 +109,7 @@ impl<'t, F: Kind + BooleanFunction> Session<'t, F> {
             Ok(range) => {
                 self.n = nv;
                 self.out.emit(json!({"ev":"add_vars","k":k,"range":[range.start, range.end],
-                    "n":nv,"nl":nl,"l2v":l2v,"v2l":v2l}));
+                    "n":nv,"nl":nl,"l2v":l2v,"v2l":v2l,"via":via}));
             }
             Err(p) => self.out.emit(json!({"ev":"add_vars","k":k,"res":{"panic":p}})),
         }
@@ -304,11 +333,15 @@ impl<'t, F: Kind + BooleanFunction> Session<'t, F> {
         let evs: Vec<(u8, u32)> = std::mem::take(&mut *oxidd_reorder::verif::EVENTS.lock());
         let conc = evs.iter().any(|e| e.0 == 2);
         let swaps: Vec<Value> = evs.iter().filter(|e| e.0 < 2).map(|e| json!([e.0, e.1])).collect();
+        // input of the level sort (target positions of the non-empty levels) and whether it returned
+        let sortseq: Vec<u32> = evs.iter().filter(|e| e.0 == 3).map(|e| e.1).collect();
+        let sorted = evs.iter().any(|e| e.0 == 4);
         let (l2v, v2l) = self.order();
         match r {
             Ok(()) => self
                 .out
-                .emit(json!({"ev":"reorder","req":req,"l2v":l2v,"v2l":v2l,"conc":conc,"swaps":swaps})),
+                .emit(json!({"ev":"reorder","req":req,"l2v":l2v,"v2l":v2l,"conc":conc,"swaps":swaps,
+                    "sortseq":sortseq,"sorted":sorted})),
             Err(p) => self
                 .out
                 .emit(json!({"ev":"reorder","req":req,"res":{"panic":p}})),
